@@ -403,7 +403,11 @@ class Interp:
         elif isinstance(t, ast.Attribute):
             obj = self.expr(t.value, env)
             if isinstance(obj, Synth):
-                setattr(obj, t.attr, v)
+                if getattr(obj, "__dl_frozen__", False) and not getattr(obj, "__dl_constructing__", False):
+                    raise Raised("FrozenInstanceError", t.attr, t)
+                if getattr(obj, "__dl_slots__", False) and not hasattr(obj, t.attr) and not getattr(obj, "__dl_constructing__", False):
+                    raise Raised("AttributeError", t.attr, t)
+                object.__setattr__(obj, t.attr, v)
             else:
                 raise Unsupported("attribute store")
         elif isinstance(t, ast.Subscript):
@@ -581,7 +585,9 @@ class Interp:
                 return base.__name__
             if isinstance(base, Synth):
                 if n.attr == "__dict__":
-                    return dict(vars(base))
+                    if getattr(base, "__dl_slots__", False):
+                        raise Raised("AttributeError", "__dict__", n)     # slotted dataclass instances have no __dict__
+                    return {k_: v_ for k_, v_ in vars(base).items() if not k_.startswith("__dl_")}
                 if hasattr(base, n.attr):
                     return getattr(base, n.attr)
                 raise Raised("AttributeError", n.attr, n)
@@ -770,6 +776,10 @@ class Interp:
                     raise Raised("AttributeError", args[1], n)
                 raise Unsupported("getattr on non-IR value")
             if name == "hasattr" and len(args) == 2 and isinstance(args[1], str):
+                if args[1] == "__dict__" and isinstance(args[0], Synth) and getattr(args[0], "__dl_slots__", False):
+                    return False
+                if isinstance(args[0], Synth) and args[1].startswith("__dl_"):
+                    return False
                 return hasattr(args[0], args[1]) if isinstance(args[0], (Synth, str, int, float, list, dict, tuple, set)) else False
             if name == "isinstance":
                 v, t = args
